@@ -34,6 +34,10 @@ def showSt (old s : St) (r : Int) : String :=
   s!"r={r} acc={acc} q={q} pollin={b s.pollin} pc={pendingCount s} spare={b s.spare} cl={ids cl}" ++
     (if s.fault then " FAULT" else "")
 
+structure CS where
+  c : Conn := {}
+  delivered : Option Int := none
+
 structure AS where
   s : Option St := none
   typed : Bool := false      -- also print pendingType (simulator mode)
@@ -105,6 +109,22 @@ def connectStep (c : Conn) (ws : List String) : Conn × List String :=
   | ["destroy"] => let c' := connDestroy c; (c', cbsOf c c')
   | _ => (c, ["bad-op"])
 
+/-- mode `retry`: like `connect`, with the callback of uv__stream_connect opened up:
+`tcp|pipe …` | `iopre <soError>` (up to the callback) | `iopost` (after it) | `st` | `close` | `destroy` -/
+def retryStep (s : CS) (ws : List String) : CS × List String :=
+  let cbsOf (old new : Conn) := (new.cbs.drop old.cbs.length).map fun (r, st) => s!"cb {r} {st}"
+  let b (x : Bool) := if x then "1" else "0"
+  match ws with
+  | [] => (s, [])
+  | ["tcp", e, r] => let (c', rc) := tcpConnect s.c (int! e) (int! r); ({ s with c := c' }, [s!"ret {rc}"])
+  | ["pipe", a, e, r] => let (c', rc) := pipeConnect s.c (int! a) (int! e) (int! r); ({ s with c := c' }, [s!"ret {rc}"])
+  | ["iopre", so] => let (c', d) := connPre s.c (int! so); ({ c := c', delivered := d }, cbsOf s.c c')
+  | ["iopost"] => let c' := connPost s.c s.delivered; ({ c := c', delivered := none }, [])
+  | ["st"] => (s, [s!"st pollout={b s.c.pollout} pending={b s.c.connectReq.isSome}"])
+  | ["close"] => ({ s with c := connClose s.c }, [])
+  | ["destroy"] => let c' := connDestroy s.c; ({ s with c := c' }, cbsOf s.c c')
+  | _ => (s, ["bad-op"])
+
 /-- mode `send`: `enq <bytes> <handle id|->` | `sys <result>` (one syscall of uv__write on the head request) -/
 def sendStep (s : SSt) (ws : List String) : SSt × List String :=
   match ws with
@@ -120,6 +140,7 @@ def sendStep (s : SSt) (ws : List String) : SSt × List String :=
 
 def modes : List (String × IO Unit) :=
   [("accept", runLines ({} : AS) acceptStep), ("wcheck", runLines () wcheckStep),
-   ("connect", runLines ({} : Conn) connectStep), ("send", runLines ({} : SSt) sendStep)]
+   ("connect", runLines ({} : Conn) connectStep), ("send", runLines ({} : SSt) sendStep),
+   ("retry", runLines ({} : CS) retryStep)]
 
 end Drivers.C07
